@@ -5,6 +5,7 @@
 mod map32;
 mod mmapper;
 mod sys;
+mod watch;
 
 fn main() {
     let args: Vec<String> = std::env::args().collect();
